@@ -33,6 +33,9 @@ func terminatorsIn(fn *ssa.Function) []Term {
 	allInstrs(fn, func(in ssa.Instruction) {
 		switch x := in.(type) {
 		case *ssa.Panic:
+			if s, ok := constString(x.X); ok && s == "blocking select matched no case" && !x.Pos().IsValid() {
+				return // synthetic: emitted by go/ssa after a blocking select, unreachable
+			}
 			out = append(out, Term{fn, in, "panic", "explicit panic(" + valueBrief(x.X) + ")"})
 		case *ssa.TypeAssert:
 			if !x.CommaOk {
